@@ -19,3 +19,11 @@ add("C17", "exhaustive enumeration of a token language for both roles + Hypothes
     "All 585 000 (name, role) pairs of 1..4 tokens over a 23-token alphabet (30 tokens thorough) are parsed; each outcome must be ValueError or a standard name satisfying every clause of the statement (valid algorithm for the role, N>=1, N=1 <=> zero algorithm, bare number -> default, no two numbers / two algorithms, fixed point of re-parsing); every distinct accepted standard name with N<=50 (300 thorough) is built by the factory and its points counted.",
     "Trusted: the 40-line predicate in props/c17.py. Names with a dimension tag are unspecified and skipped.",
     "DESIGN.md section 5, C17")
+add("C19", "exhaustive enumeration of the small specification box, outcome classified against the allowed-exception oracle",
+    "Every (n_b, n_o, n_t) in 1..5 x 1..5 x 1..3 (thorough 1..9 x 1..9 x 1..4), both position modes, three (six) algorithm pairs and bare-number names: construction plus all five getters must give the right shape or ValueError (QhullError allowed only for Cartesian n_o<3); other exceptions are bucketed by (type, innermost repository frame) so distinct root causes are reported separately.",
+    "Trusted: numpy shape inspection. The box is a cost bound, not a claim about larger grids (those are C02-C06).",
+    "DESIGN.md section 5, C19")
+add("C20", "round trip through the package's writer/reader on a grid pool + Hypothesis text generation of xvg files against an independent line splitter",
+    "84 (thorough 400+) grid specifications are written and read back and compared bit-for-bit incl. sparse format and entry order; thousands of generated GROMACS-style energy files (0..13 '#' lines, >=13 header lines, 1..10 legends, random padding) must be read into the exact frame (names, order, float(token) values), the single-column getter and the csv round trip must agree.",
+    "Trusted: Python float(), numpy, pandas' csv writer. Values carry <=12 significant digits (measured limit of pandas' default float parser, not a property of the reader).",
+    "DESIGN.md section 5, C20")
